@@ -170,7 +170,7 @@ def _cast_scalar(v, dt):
         if isinstance(v, Sym):
             return v
         if isinstance(v, float) and v != v:
-            raise Unsupported("NaN cast to int")
+            return mk(eng().fresh("nan2int", "Int"))     # NaN -> int is unspecified: an arbitrary integer
         return int(v)
     if dt.kind == "b":
         if isinstance(v, SymBool):
@@ -614,7 +614,11 @@ def _div(a, b):
         if not isinstance(a, Sym):
             a = mk(sc.lift(float(a)))
         return a / b
-    return a / b
+    try:
+        return a / b
+    except ZeroDivisionError:      # numpy semantics for floats: nan / +-inf (with a warning)
+        a = float(a)
+        return float("nan") if a == 0 or a != a else (float("inf") if a > 0 else float("-inf"))
 
 
 def _pow(a, b):
